@@ -47,6 +47,7 @@ pub fn spec() -> Spec {
         streams: vec![
             Stream { name: "align2", quick: 20_000, thorough: 600_000, run: run2 },
             Stream { name: "align3", quick: 8000, thorough: 250_000, run: run3 },
+            Stream { name: "align2-symmetric", quick: 2000, thorough: 60_000, run: run2_symmetric },
         ],
         required: vec![
             ("points_to_curve :: in-basin recovers the displacement", 1000),
@@ -227,6 +228,64 @@ fn run2(c: &mut Ctx) {
     if d != Iso2::identity() {
         c.distinct(&(refp.len(), refp[0].x.to_bits(), d.translation.vector.x.to_bits(), g.translation.vector.x.to_bits()));
     }
+}
+
+/// Point-symmetric configurations: a rectangle centred at the origin, samples closed under both
+/// mirror images, a pure translation.  The signed residuals then cancel exactly in the mean although
+/// every point is off the curve — a "nothing to do" shortcut keyed on the mean would return the
+/// starting guess.
+fn run2_symmetric(c: &mut Ctx) {
+    let (a, b) = (c.rng.range(0.5, 2.0), c.rng.range(0.5, 2.0));
+    let scale = if c.rng.chance(0.3) { c.rng.log_range(0.05, 50.0) } else { 1.0 };
+    let (a, b) = (a * scale, b * scale);
+    let refp = vec![Point2::new(-a, -b), Point2::new(a, -b), Point2::new(a, b), Point2::new(-a, b)];
+    let Ok(Ok(curve)) = guard(|| Curve2::from_points(&refp, 1e-9 * scale, true)) else { return };
+    let size = 2.0 * (a * a + b * b).sqrt();
+    let k = c.rng.int(3, 20);
+    let mut samples = Vec::new();
+    for _ in 0..k {
+        let x = a * c.rng.range(0.05, 0.8);
+        let y = b * c.rng.range(0.05, 0.8);
+        for (sx, sy) in [(1.0, 1.0), (-1.0, 1.0), (1.0, -1.0), (-1.0, -1.0)] {
+            samples.push(Point2::new(sx * x, sy * b)); // top and bottom edges
+            samples.push(Point2::new(sx * a, sy * y)); // right and left edges
+        }
+    }
+    let tb = B2_T * size * 0.5 * basin_mult();
+    let d = Iso2::translation(c.rng.range(-tb, tb), c.rng.range(-tb, tb));
+    let g = Iso2::identity();
+    let moved: Vec<Point2> = samples.iter().map(|p| d * p).collect();
+    c.family("align2/symmetric-rectangle/in-basin");
+    c.set_case(json!({"reference": gen::j2(&refp), "closed": true, "points": gen::j2(&moved), "displacement": gen::jiso2(&d), "initial": gen::jiso2(&g)}));
+    let class = "symmetric-rectangle";
+    let api = "points_to_curve";
+    verif_hooks::set_logging(true);
+    let r = guard(|| points_to_curve(&moved, &curve, &g));
+    let log = verif_hooks::take_log();
+    verif_hooks::set_logging(false);
+    c.eval();
+    let al = match r {
+        Err(p) => {
+            c.check(api, "no-panic", class, false, || format!("{} {}", p.sig(), p.msg));
+            return;
+        }
+        Ok(Err(e)) => {
+            c.check(api, "in-basin succeeds", class, false, || format!("Err({e})"));
+            return;
+        }
+        Ok(Ok(a)) => a,
+    };
+    let t = *al.transform();
+    let err = samples.iter().zip(moved.iter()).map(|(p, q)| (t * q - p).norm()).fold(0.0, f64::max);
+    c.close(api, "in-basin recovers the displacement", class, err / size, 0.0, 1e-6);
+    let rr = residuals2(&curve, &t, &moved);
+    let got = al.residuals().to_vec();
+    if c.check(api, "one residual per point", class, got.len() == moved.len(), || format!("{} residuals for {} points", got.len(), moved.len())) {
+        let worst = rr.iter().zip(got.iter()).map(|(a, b)| (a - b).abs()).fold(0.0, f64::max);
+        c.close(api, "residual i == distance of point i moved by the returned transform", class, worst / size, 0.0, 1e-9);
+    }
+    check_trace2(c, &log, &curve, &moved, &g, &t, size, class);
+    c.distinct(&(k, a.to_bits(), d.translation.vector.x.to_bits()));
 }
 
 #[allow(clippy::too_many_arguments)]
@@ -606,49 +665,70 @@ fn check_trace3(c: &mut Ctx, log: &[Event], mesh: &Mesh, raw: &RawMesh, pts: &[P
                     if jac_seen > 2 {
                         continue;
                     }
-                    let rows: Vec<usize> = (0..8).map(|_| c.rng.int(0, n - 1)).collect();
+                    // eight random rows, plus up to eight rows whose closest point is on an edge or a
+                    // vertex of the mesh (there the two distance modes have different derivatives)
+                    let mut rows: Vec<usize> = (0..8).map(|_| c.rng.int(0, n - 1)).collect();
+                    let mut edge_rows = 0;
+                    for _ in 0..4 * n.min(64) {
+                        if edge_rows >= 8 {
+                            break;
+                        }
+                        let i = c.rng.int(0, n - 1);
+                        let m = t * pts[i];
+                        let s = mesh.surf_closest_to(&m);
+                        let off = m - s.point;
+                        // (point mode only: the plane-mode residual at an edge depends on which of the
+                        // two faces the closest-point query happens to report)
+                        if point_mode && off.norm() > 1e-4 * size && off.normalize().dot(&s.normal).abs() < 1.0 - 1e-6 {
+                            rows.push(i);
+                            edge_rows += 1;
+                        }
+                    }
                     for &i in &rows {
                         let p = pts[i];
-                        // residual and the face attaining it (brute force, so that stability of the
-                        // closest element can be judged independently)
-                        let eval = |xx: &Vector6<f64>| -> (f64, usize, bool) {
+                        let eval = |xx: &Vector6<f64>| -> (f64, bool) {
                             let mut q = prm.clone();
                             q.set(xx);
                             let m = q.transform() * p;
                             let s = mesh.surf_closest_to(&m);
-                            let (_, fi) = oracle::brute_mesh(&raw.v, &raw.f, &m);
-                            // interior of a face: the offset is parallel to the face normal
                             let off = m - s.point;
                             let interior = off.norm() > 0.0 && (off.normalize().dot(&s.normal).abs() > 1.0 - 1e-9);
                             let r = if point_mode { off.norm() } else { s.scalar_projection(&m).abs() };
-                            (r, fi, interior)
+                            (r, interior)
                         };
-                        let (r_mid, f_mid, int_mid) = eval(&x);
-                        if !int_mid || r_mid < 1e-4 * size || r_mid > 10.0 * size {
-                            // not eligible: closest point on an edge/vertex, or residual on its kink
+                        let (r_mid, int_mid) = eval(&x);
+                        if r_mid < 1e-4 * size || r_mid > 10.0 * size || (!point_mode && !int_mid) {
+                            // residual on (or next to) its kink at zero distance, or a plane-mode
+                            // residual at an edge (ambiguous face)
                             c.note("trace3/jacobian row not eligible for finite differences");
                             continue;
                         }
                         let lever = ((t * p) - prm.current_rc()).norm();
-                        let mut stable = true;
+                        // central differences at two step sizes: the row is eligible when they agree,
+                        // i.e. when the residual is smooth around x (same closest feature on both sides)
+                        let mut smooth = true;
                         let mut fd = [0.0; 6];
                         for k in 0..6 {
                             let h = if k < 3 { 1e-6 * size } else { 1e-6 };
-                            let mut xp = x;
-                            xp[k] += h;
-                            let mut xm = x;
-                            xm[k] -= h;
-                            let (rp, fp, ip) = eval(&xp);
-                            let (rm, fm, im) = eval(&xm);
-                            if fp != f_mid || fm != f_mid || !ip || !im {
-                                stable = false;
+                            let tol = if k < 3 { 1e-5 } else { 1e-5 * (size + lever) };
+                            let d = |h: f64| {
+                                let mut xp = x;
+                                xp[k] += h;
+                                let mut xm = x;
+                                xm[k] -= h;
+                                (eval(&xp).0 - eval(&xm).0) / (2.0 * h)
+                            };
+                            let (d1, d2) = (d(h), d(4.0 * h));
+                            if (d1 - d2).abs() > 0.2 * tol {
+                                smooth = false;
                             }
-                            fd[k] = (rp - rm) / (2.0 * h);
+                            fd[k] = d1;
                         }
-                        if !stable {
+                        if !smooth {
                             c.skip("points_to_mesh trace :: jacobian row is the derivative of the residual");
                             continue;
                         }
+                        c.note(if int_mid { "trace3/jacobian row judged (closest point inside a face)" } else { "trace3/jacobian row judged (closest point on an edge or vertex)" });
                         let mut worst = 0.0f64;
                         for k in 0..6 {
                             let tol = if k < 3 { 1e-5 } else { 1e-5 * (size + lever) };
